@@ -460,7 +460,8 @@ class MP4Tags(DictProxy, Tags):
         fileobj.seek(offset)
         fileobj.write(data)
         self.__update_parents(fileobj, path, len(data))
-        self.__update_offsets(fileobj, atoms, len(data), offset)
+        # everything at or behind the insertion point has moved
+        self.__update_offsets(fileobj, atoms, len(data), offset - 1)
 
     def __save_existing(self, fileobj, atoms, path, ilst_data, padding_func):
         # Replace the old ilst atom.
